@@ -114,5 +114,137 @@ theorem cycle_ls (j : ℕ) (hnb : ∀ i, i < j → arnoldiNorm side sqrt A P st 
   rw [hres, orthonormal_sum_sq (j + 1) _ (fun a b ha hb => hon a b (by omega) (by omega))]
   exact givens_ls hgiv y
 
+/-- the `x` the cycle would return if the inner loop ended after `j` passes -/
+def cycleIterate (side : Side) (sqrt : K → K) (A : CRS K) (P : Vec K → Vec K) (st : GMRES.St K) (j : ℕ) : Vec K :=
+  (update side P st (innerPass side sqrt A P st j)).x
+
+omit hsqrt hst in
+/-- the iterate as a vector: `x₀ + Xl (Σ_{i<j} y_i V_i)` with `y = backSubst j H s` -/
+theorem cycleIterate_vec (j : ℕ) (hj : 1 ≤ j)
+    (hsize : ∀ a, a ≤ j → ((innerPass side sqrt A P st j).w.v.get a).size = n) :
+    vecOf n (cycleIterate side sqrt A P st j) = vecOf n st.x
+      + Xl side Pl (∑ i ∈ range j, (backSubst j (innerPass side sqrt A P st j).w.h.H
+          (innerPass side sqrt A P st j).w.h.s).get i • vecOf n ((innerPass side sqrt A P st j).w.v.get i)) := by
+  have htj := innerPass_j side sqrt A P st j
+  have h := update_x n A hA hn hm P Pl hP side st (innerPass side sqrt A P st j) (by rw [htj]; exact hj)
+    (fun i hi => hsize i (by rw [htj] at hi; omega))
+  rw [htj] at h
+  exact h
+
+/-- **the Givens-reduced quantity is the residual norm**: `‖Rf x_j‖² = s_j²` for the iterate after `j ≥ 1` passes -/
+theorem cycle_residual (j : ℕ) (hj : 1 ≤ j) (hnb : ∀ i, i < j → arnoldiNorm side sqrt A P st i ≠ 0) :
+    stdIp (GMRES.Rf side P f A (cycleIterate side sqrt A P st j)) (GMRES.Rf side P f A (cycleIterate side sqrt A P st j))
+      = (innerPass side sqrt A P st j).w.h.s.get j * (innerPass side sqrt A P st j).w.h.s.get j := by
+  obtain ⟨hsize, _, _, _⟩ := cycle_basis n A hA hn hm P Pl hP side sqrt hsqrt f st hst j hnb
+  have hd := (innerPassG_givens side sqrt (fun x hx => (hsqrt x hx).1) A P st g00 j).2
+  obtain ⟨_, bs⟩ := backSubst_spec (innerPass side sqrt A P st j).w.h.H j (innerPass side sqrt A P st j).w.h.s
+    (fun a ha => hd a ha (hnb a ha))
+  obtain ⟨r1, r2⟩ := Rf_vec n A hA hn hm P Pl hP side f (cycleIterate side sqrt A P st j)
+  rw [stdIp_vecOf n _ _ r1 r1, r2, cycleIterate_vec n A hA hn hm P Pl hP side sqrt st j hj hsize,
+    cycle_ls n A hA hn hm P Pl hP side sqrt hsqrt f st hst j hnb]
+  have hz : ∀ a ∈ range j, ((innerPass side sqrt A P st j).w.h.s.get a
+        - ∑ i ∈ Ico a j, (innerPass side sqrt A P st j).w.h.H.get a i
+          * (backSubst j (innerPass side sqrt A P st j).w.h.H (innerPass side sqrt A P st j).w.h.s).get i)
+      * ((innerPass side sqrt A P st j).w.h.s.get a
+        - ∑ i ∈ Ico a j, (innerPass side sqrt A P st j).w.h.H.get a i
+          * (backSubst j (innerPass side sqrt A P st j).w.h.H (innerPass side sqrt A P st j).w.h.s).get i) = 0 := by
+    intro a ha
+    rw [bs a (mem_range.mp ha), sub_self, mul_zero]
+  rw [sum_eq_zero hz, zero_add]
+
+/-- … as norms: `‖Rf x_j‖ = |s_j|`, which is the `inner_res` the loop tests -/
+theorem cycle_residual_norm (j : ℕ) (hj : 1 ≤ j) (hnb : ∀ i, i < j → arnoldiNorm side sqrt A P st i ≠ 0) :
+    nrmA stdIp sqrt (GMRES.Rf side P f A (cycleIterate side sqrt A P st j))
+      = Solver.absK ((innerPass side sqrt A P st j).w.h.s.get j) ∧
+    (innerPass side sqrt A P st j).innerRes = Solver.absK ((innerPass side sqrt A P st j).w.h.s.get j) := by
+  constructor
+  · unfold nrmA
+    rw [cycle_residual n A hA hn hm P Pl hP side sqrt hsqrt f st hst j hj hnb]
+    obtain ⟨h1, h2⟩ := hsqrt _ (mul_self_nonneg ((innerPass side sqrt A P st j).w.h.s.get j))
+    rw [absK_eq_abs, absK_eq_abs]
+    exact abs_eq_abs.mpr (mul_self_eq_mul_self_iff.mp h1)
+  · obtain ⟨m, rfl⟩ : ∃ m, j = m + 1 := ⟨j - 1, by omega⟩
+    exact (innerRes_antitone side sqrt (fun x hx => (hsqrt x hx).1) A P st m).1
+
+/-- **the iterate minimises the residual norm** over `x₀ + Xl (span{V_0..V_{j-1}})`, coefficient form -/
+theorem cycle_minimal_coeff (j : ℕ) (hj : 1 ≤ j) (hnb : ∀ i, i < j → arnoldiNorm side sqrt A P st i ≠ 0)
+    (y : ℕ → K) :
+    stdIp (GMRES.Rf side P f A (cycleIterate side sqrt A P st j)) (GMRES.Rf side P f A (cycleIterate side sqrt A P st j))
+      ≤ resOf side (matOf A n n) Pl (vecOf n f) (vecOf n st.x
+          + Xl side Pl (∑ i ∈ range j, y i • vecOf n ((innerPass side sqrt A P st j).w.v.get i)))
+        ⬝ᵥ resOf side (matOf A n n) Pl (vecOf n f) (vecOf n st.x
+          + Xl side Pl (∑ i ∈ range j, y i • vecOf n ((innerPass side sqrt A P st j).w.v.get i))) := by
+  rw [cycle_residual n A hA hn hm P Pl hP side sqrt hsqrt f st hst j hj hnb,
+    cycle_ls n A hA hn hm P Pl hP side sqrt hsqrt f st hst j hnb]
+  have : 0 ≤ ∑ a ∈ range j, ((innerPass side sqrt A P st j).w.h.s.get a
+          - ∑ i ∈ Ico a j, (innerPass side sqrt A P st j).w.h.H.get a i * y i)
+        * ((innerPass side sqrt A P st j).w.h.s.get a
+          - ∑ i ∈ Ico a j, (innerPass side sqrt A P st j).w.h.H.get a i * y i) :=
+    sum_nonneg (fun a _ => mul_self_nonneg _)
+  linarith
+
+/-- the span of the first `j` Arnoldi vectors -/
+def arnoldiSpan (side : Side) (sqrt : K → K) (A : CRS K) (P : Vec K → Vec K) (st : GMRES.St K) (n j : ℕ) :
+    Submodule K (Fin n → K) :=
+  Submodule.span K (Set.range fun i : Fin j => vecOf n ((innerPass side sqrt A P st j).w.v.get i.val))
+
+/-- **the iterate minimises the residual norm** over `x₀ + Xl (span{V_0..V_{j-1}})` -/
+theorem cycle_minimal (j : ℕ) (hj : 1 ≤ j) (hnb : ∀ i, i < j → arnoldiNorm side sqrt A P st i ≠ 0)
+    (d : Fin n → K) (hd : d ∈ arnoldiSpan side sqrt A P st n j) :
+    stdIp (GMRES.Rf side P f A (cycleIterate side sqrt A P st j)) (GMRES.Rf side P f A (cycleIterate side sqrt A P st j))
+      ≤ resOf side (matOf A n n) Pl (vecOf n f) (vecOf n st.x + Xl side Pl d)
+        ⬝ᵥ resOf side (matOf A n n) Pl (vecOf n f) (vecOf n st.x + Xl side Pl d) := by
+  obtain ⟨c, rfl⟩ := (Submodule.mem_span_range_iff_exists_fun K).mp hd
+  have e : ∑ i : Fin j, c i • vecOf n ((innerPass side sqrt A P st j).w.v.get i.val)
+      = ∑ i ∈ range j, (fun i => if h : i < j then c ⟨i, h⟩ else 0) i
+          • vecOf n ((innerPass side sqrt A P st j).w.v.get i) := by
+    rw [sum_range]
+    apply sum_congr rfl
+    intro i _
+    simp only [i.isLt, dite_true]
+  rw [e]
+  exact cycle_minimal_coeff n A hA hn hm P Pl hP side sqrt hsqrt f st hst j hj hnb _
+
+/-- the iterate itself lies in `x₀ + Xl (span{V_0..V_{j-1}})` -/
+theorem cycleIterate_mem (j : ℕ) (hj : 1 ≤ j) (hnb : ∀ i, i < j → arnoldiNorm side sqrt A P st i ≠ 0) :
+    ∃ d ∈ arnoldiSpan side sqrt A P st n j, vecOf n (cycleIterate side sqrt A P st j) = vecOf n st.x + Xl side Pl d := by
+  obtain ⟨hsize, _, _, _⟩ := cycle_basis n A hA hn hm P Pl hP side sqrt hsqrt f st hst j hnb
+  refine ⟨_, ?_, cycleIterate_vec n A hA hn hm P Pl hP side sqrt st j hj hsize⟩
+  apply Submodule.sum_mem
+  intro i hi
+  apply Submodule.smul_mem
+  exact Submodule.subset_span ⟨⟨i, mem_range.mp hi⟩, rfl⟩
+
+/-- **the residual norm of the iterates does not increase** with the number of passes -/
+theorem cycle_antitone (j : ℕ) (hj : 1 ≤ j) (hnb : ∀ i, i < j + 1 → arnoldiNorm side sqrt A P st i ≠ 0) :
+    stdIp (GMRES.Rf side P f A (cycleIterate side sqrt A P st (j + 1)))
+        (GMRES.Rf side P f A (cycleIterate side sqrt A P st (j + 1)))
+      ≤ stdIp (GMRES.Rf side P f A (cycleIterate side sqrt A P st j))
+        (GMRES.Rf side P f A (cycleIterate side sqrt A P st j)) := by
+  rw [cycle_residual n A hA hn hm P Pl hP side sqrt hsqrt f st hst (j + 1) (by omega) hnb,
+    cycle_residual n A hA hn hm P Pl hP side sqrt hsqrt f st hst j hj (fun i hi => hnb i (by omega))]
+  have h := (innerRes_antitone side sqrt (fun x hx => (hsqrt x hx).1) A P st j).2
+  rw [absK_eq_abs, absK_eq_abs] at h
+  exact abs_le_iff_mul_self_le.mp h
+
+/-- the first pass does not increase the residual either: `‖Rf x_1‖² ≤ ‖r₀‖²` -/
+theorem cycle_antitone_zero (hnb : arnoldiNorm side sqrt A P st 0 ≠ 0) :
+    stdIp (GMRES.Rf side P f A (cycleIterate side sqrt A P st 1)) (GMRES.Rf side P f A (cycleIterate side sqrt A P st 1))
+      ≤ stdIp (GMRES.Rf side P f A st.x) (GMRES.Rf side P f A st.x) := by
+  rw [cycle_residual n A hA hn hm P Pl hP side sqrt hsqrt f st hst 1 (Nat.le_refl 1)
+    (fun i hi => by have : i = 0 := by omega
+                    subst this; exact hnb)]
+  have h := (innerRes_antitone side sqrt (fun x hx => (hsqrt x hx).1) A P st 0).2
+  rw [absK_eq_abs, absK_eq_abs] at h
+  have h2 := abs_le_iff_mul_self_le.mp h
+  have hs0 : (innerPass side sqrt A P st 0).w.h.s.get 0 = st.normR := rfl
+  rw [hs0] at h2
+  have hn2 : st.normR * st.normR = stdIp (GMRES.Rf side P f A st.x) (GMRES.Rf side P f A st.x) := by
+    rw [hst.normR, hst.r]
+    unfold nrmA
+    rw [absK_mul_self]
+    exact (hsqrt _ (stdIp_self_nonneg _)).1
+  rw [← hn2]; exact h2
+
 end main
 end Amgcl.Krylov
